@@ -9,16 +9,18 @@ import Univers.Driver.Dispatch
 import Univers.Driver.Gem
 import Univers.Driver.Generic
 import Univers.Driver.Gentoo
+import Univers.Driver.Maven
 import Univers.Driver.Nuget
 import Univers.Driver.Openssl
 import Univers.Driver.Pypi
 import Univers.Driver.Rpm
 import Univers.Driver.Semver
+import Univers.Driver.TextVers
 import Univers.Driver.Vers
 
 namespace Univers.Driver
 
-def handlers : List (List String → Option String) := [alpmCmd, conanCmd, debCmd, dispatchCmd, gemCmd, genericCmd, gentooCmd, nugetCmd, opensslCmd, pypiCmd, rpmCmd, semverCmd, versCmd]
+def handlers : List (List String → Option String) := [alpmCmd, conanCmd, debCmd, dispatchCmd, gemCmd, genericCmd, gentooCmd, mavenCmd, nugetCmd, opensslCmd, pypiCmd, rpmCmd, semverCmd, textVersCmd, versCmd]
 
 def answer (line : String) : String :=
   let ws := (line.splitOn " ").filter (· ≠ "")
